@@ -27,7 +27,7 @@ MODULES = [
     (r"^c0[67]_tls_", "transport::tls::verif_tls"),
     (r"^c0[67]_junos_local_", "transport::junos_local::verif_junos_local"),
     (r"^c0[67]_ssh_|^c20_password", "transport::ssh::verif_ssh"),
-    (r"^c09_|^c05_|^c18_|^c12_negotiation|^c10_commit|^c10_junos", "session::verif_session"),
+    (r"^c09_|^c05_|^c18_|^c12_negotiation|^c10_commit|^c10_url|^c10_junos", "session::verif_session"),
     (r"^c12_server_hello|^c12_capabilit|^c13_capabilit|^c13_session_id", "message::hello::verif_hello"),
     (r"^c08_load_|^c10_load_configuration", "message::rpc::operation::junos::load_configuration::verif_load"),
     (r"^c08_rpc_error_reader", "message::rpc::error::verif_error"),
@@ -411,7 +411,8 @@ CHECKS["C13"] = {
                    "outcome: a comment inserted before / after the item of a one-item reply (EmptyReply, one harness per item kind: quick <ok/>, "
                    "rpc-error, <data>; thorough all 8 kinds); a comment before / after a <capability> inside <capabilities>; <ok/> vs <ok></ok>; "
                    "an XML declaration in front of <rpc-reply>; whitespace around the <session-id> text and around a <capability> URI.",
-    "assumptions": ["namespace prefix vs default namespace, attribute quoting/order and inter-element whitespace are resolved inside quick-xml and invisible at event level",
+    "assumptions": ["attribute quoting/order and inter-element whitespace are resolved inside quick-xml and invisible at event level",
+                    "NOT covered: namespace prefix vs default namespace - the event model has no prefixed element names (qualified name = local name), so code that compares qualified names (read_text / read_to_end end tags) is never run on a prefixed spelling (seed C13a is missed for this reason)",
                     "NOT covered: whitespace around the token-valued texts of <rpc-error> children and of message-id, comments inside DataReply / BareReply / "
                     "load-configuration results and between the children of <hello>, and the configuration readers of the agent (which match <reject/> etc. as "
                     "empty-element events only, like the two sites repaired by 1fdf0d6)"],
@@ -474,6 +475,10 @@ CHECKS["C10"] = {
     "harnesses": [
         harness("c10_load_configuration_text_payload_is_escaped", functions=["junos::load_configuration::LoadConfiguration::write_xml", "Config::write_element", "ConfigData<Text|Json>::write_data"],
                 bounds="payload of 2 bytes over {<,&,\",],a}; text and json formats", loops={r"Inline.*from_slice|write_escaped": 45}, mem_gb=30),
+        harness("c10_url_plain", functions=["Url::try_new", "delete_config::Builder::url", "DeleteConfig::write_xml", "Url::write_xml"],
+                bounds="concrete URL http://h/c", tiers=["experimental"]),
+        harness("c10_url_with_metacharacters", functions=["Url::try_new", "delete_config::Builder::url", "DeleteConfig::write_xml", "Url::write_xml"],
+                bounds="concrete URL http://h/?a&b='c' (the XML metacharacters a URI may contain)", tiers=["experimental"]),
         harness("c10_commit_tokens", functions=["Commit::write_xml", "CancelCommit::write_xml", "commit::Builder::persist/persist_id", "Token"],
                 bounds="token of 2 bytes over {<,&,\",],a}; persist, persist-id, cancel-commit persist-id", loops={r"Inline.*from_slice|write_escaped": 45}, tiers=["experimental"], mem_gb=30),
         harness("c10_junos_texts_and_xpath", functions=["OpenConfiguration::write_xml", "CommitConfiguration::write_xml", "GetConfig::write_xml", "Filter::write_xml"],
@@ -540,13 +545,13 @@ CHECKS["C19"] = {
                    "(base) the first failure is retried after exactly one minute; (failure step) the retry delay is b - never below one minute, never "
                    "above max(one minute, period), never zero - and the next back-off is >= b, > b unless it reached the cap, and inside the "
                    "invariant again; (success step) the timer is re-armed with the normal period and the back-off is one minute again; (SIGHUP) the "
-                   "timer fires immediately and the back-off is untouched; plus the composed history fail,fail,fail,ok,fail for every period.  "
+                   "timer fires immediately and the back-off is untouched; (SIGINT / SIGTERM) the arm leaves the loop and Loop::start ends with Ok(()); plus the composed history fail,fail,fail,ok,fail for every period.  "
                    "Frequency::from for every u64 (0 = one-shot).",
     "assumptions": ["the slice: statement text is taken verbatim from the current source (tracing statements dropped, `self.period` spelled `period`); "
                     "that the select! loop runs the Err / Ok arm exactly when a job ended with that outcome, and nothing else touches `backoff` or "
                     "`interval`, is read off the source shape by the slicer (it refuses any other shape -> INCONCLUSIVE) and is not decided by the solver",
                     "`interval` is a recorder for reset() / reset_after(d) / reset_immediately(); their meaning (now + period / now + d / now) is tokio 1.37's documented contract",
-                    "NOT covered: the select! loop itself - SIGINT / SIGTERM exit, arrival of signals while a job runs, what handle_task maps to Err "
+                    "NOT covered: the select! loop itself - which arm runs when (signals are only looked at while the loop waits, not while a job runs), what handle_task maps to Err "
                     "(the loop harnesses c19_backoff_and_period / c19_signals exceed 26 GB and stay experimental)",
                     "periods above 2^62 s are outside the claim (`backoff * 2` can overflow there after more than 56 consecutive failures)"],
     "harnesses": [
@@ -555,6 +560,7 @@ CHECKS["C19"] = {
                 bounds="every period 1..2^62 s, every back-off in [60 s, max(60 s, period)] (whole seconds); one step = all histories by induction"),
         harness("c19_slice_success_step", package=AGENT, functions=["task::Loop::start (Ok arm, sliced)"], bounds="every period, every back-off in the invariant"),
         harness("c19_slice_sighup_step", package=AGENT, functions=["task::Loop::start (SIGHUP arm, sliced)"], bounds="every period, every back-off in the invariant"),
+        harness("c19_slice_sigint_sigterm_exit", package=AGENT, functions=["task::Loop::start (SIGINT and SIGTERM arms, sliced)"], bounds="every period, every back-off in the invariant"),
         harness("c19_slice_history_fffsf", package=AGENT, functions=["task::Loop::start (initialisers, Err and Ok arms, sliced)"],
                 bounds="history fail,fail,fail,ok,fail; every period 1..2^62 s", loops={r"c19_slice_history": 5}),
         harness("c19_frequency_zero_is_one_shot", package=AGENT, functions=["cli::Frequency::from"], bounds="all u64"),
